@@ -1882,6 +1882,8 @@ struct ReportDataResponder<'a, 'b, 'c, const NE: usize, C> {
     invoker: HandlerInvoker<'b, 'c, C>,
     event_reader: EventReader,
     events: &'a Events<NE>,
+    /// How much of `LONG_READS_TLV_RESERVE_SIZE` is still held back in the reply being built
+    reserve: usize,
 }
 
 impl<'a, 'b, 'c, const NE: usize, C> ReportDataResponder<'a, 'b, 'c, NE, C>
@@ -1906,6 +1908,7 @@ where
             invoker,
             event_reader,
             events,
+            reserve: 0,
         }
     }
 
@@ -2009,6 +2012,7 @@ where
                 }
             }
 
+            self.release_reserve(wb, 1)?;
             wb.end_container()?;
         }
 
@@ -2027,6 +2031,7 @@ where
         let accessor = self.invoker.exchange().accessor(&metadata)?;
 
         if let Some(event_reqs) = self.req.event_requests()? {
+            self.release_reserve(wb, 2)?;
             wb.start_array(&TLVTag::Context(ReportDataRespTag::EventReports as _))?;
 
             // Validate concrete event paths against node metadata
@@ -2113,6 +2118,7 @@ where
                 }
             }
 
+            self.release_reserve(wb, 1)?;
             wb.end_container()?;
         }
 
@@ -2261,10 +2267,27 @@ where
         }
     }
 
+    /// Hand `len` bytes of the reserve over to the buffer, for a closing/opening container TLV
+    /// that has to go in regardless of how full the payload area is.
+    ///
+    /// Without this, a payload that fills the buffer exactly up to the reserve would fail the reply
+    /// with `NoSpace` when the attribute/event array is closed (or the event array is opened).
+    fn release_reserve(&mut self, wb: &mut WriteBuf<'_>, len: usize) -> Result<(), Error> {
+        if len > self.reserve {
+            Err(ErrorCode::NoSpace)?;
+        }
+
+        wb.expand(len)?;
+        self.reserve -= len;
+
+        Ok(())
+    }
+
     /// Start a reply by initializing the `WriteBuf` and writing the initial TLVs.
-    fn start_reply(&self, wb: &mut WriteBuf<'_>) -> Result<(), Error> {
+    fn start_reply(&mut self, wb: &mut WriteBuf<'_>) -> Result<(), Error> {
         wb.reset();
         wb.shrink(Self::LONG_READS_TLV_RESERVE_SIZE)?;
+        self.reserve = Self::LONG_READS_TLV_RESERVE_SIZE;
 
         wb.start_struct(&TLVTag::Anonymous)?;
 
@@ -2286,12 +2309,13 @@ where
 
     /// End a reply by writing the closing TLVs and potentially indicating that there are more chunks to send.
     fn end_reply(
-        &self,
+        &mut self,
         state: ReportDataChunkState,
         suppress_resp: bool,
         wb: &mut WriteBuf<'_>,
     ) -> Result<(), Error> {
-        wb.expand(Self::LONG_READS_TLV_RESERVE_SIZE)?;
+        wb.expand(self.reserve)?;
+        self.reserve = 0;
 
         match state {
             ReportDataChunkState::ChunkingAttributes | ReportDataChunkState::ChunkingEvents => {
